@@ -604,9 +604,103 @@ func tpRepeat(args []string) error {
 		if err != nil {
 			return err
 		}
+		// the same with -filter expressions, on inputs whose lines spell the same (tidied) unit in two ways
+		// (ns/op next to sec/op, MB/s next to B/s, ns/GC next to sec/GC) and carry sub-name and file keys:
+		// what a filter keeps is a function of the line alone, so the cells may not depend on which line of a
+		// block comes first
+		filesM := tpGenFilesMixed(newRand(int64(5000+i)), dir, i, false)
+		filesM2 := tpGenFilesMixed(newRand(int64(5000+i)), dir, i, true)
+		var ff [][]string
+		for _, f := range tpFilterExprs {
+			ff = append(ff, []string{"-filter", f})
+		}
+		ff = append(ff, []string{"-filter", tpFilterExprs[i%len(tpFilterExprs)], "-row", ".name", "-col", "goos,.file"},
+			[]string{"-filter", tpFilterExprs[(i+3)%len(tpFilterExprs)], "-table", ".unit,goos", "-row", ".fullname", "-ignore", "pkg"})
+		err = tpRepeatInput(bin, &r, fmt.Sprintf("mixed-spelling input %d", i), filesM, filesM2, []string{"1", "16", "3"},
+			[][]string{{"-filter", tpFilterExprs[(2*i)%len(tpFilterExprs)]}, {"-filter", tpFilterExprs[(2*i+1)%len(tpFilterExprs)]}}, ff)
+		if err != nil {
+			return err
+		}
 	}
 	data, _ := json.Marshal(r)
 	return os.WriteFile(args[2], data, 0o644)
+}
+
+// filter expressions of the mixed-spelling inputs: units in the reported and in the tidied spelling, negations,
+// alternatives, regular expressions, combinations with name, sub-name and file keys. Every expression keeps
+// something of every generated input (each block has lines in both spellings of every unit).
+var tpFilterExprs = []string{
+	".unit:ns/op",
+	"-.unit:ns/op",
+	".unit:sec/op",
+	".unit:MB/s",
+	"-.unit:MB/s",
+	".unit:(ns/op OR B/s)",
+	".unit:/^(ns|MB)\\//",
+	"-.unit:(ns/GC OR B/op)",
+	".unit:ns/GC OR /k:1",
+	"-(.unit:sec/GC OR .unit:MB/s) AND -.name:Alpha",
+	"goos:os0 OR .unit:ns/op",
+	"/k:(1 OR 2) OR -/k:*",
+}
+
+// tpGenFilesMixed writes 2 benchmark files in which every line spells each of its units in one of two ways
+// that tidy to the same unit (N ns/op | N*1e-9 sec/op, N MB/s | N*1e6 B/s, N ns/GC | N*1e-9 sec/GC); with
+// permute the benchmark lines of every configuration block are shuffled.
+func tpGenFilesMixed(rng *rand.Rand, dir string, i int, permute bool) []string {
+	names := []string{"Alpha", "Beta/k=1", "Beta/k=2", "Beta/k=3-2", "Gamma-8", "Delta/x=y-4"}
+	var files []string
+	perm := rand.New(rand.NewSource(int64(i)*11 + 3))
+	for f := 0; f < 2; f++ {
+		var sb strings.Builder
+		nblocks := 1 + rng.Intn(2)
+		for b := 0; b < nblocks; b++ {
+			fmt.Fprintf(&sb, "goos: os%d\npkg: p\n\n", b)
+			var lines []string
+			for _, ni := range rng.Perm(len(names)) {
+				if rng.Intn(6) == 0 {
+					continue
+				}
+				reps := 4 + rng.Intn(4)
+				for k := 0; k < reps; k++ {
+					l := fmt.Sprintf("Benchmark%s %d", names[ni], 100+k)
+					ns := 1000 + rng.Intn(200) + 100*f
+					if rng.Intn(2) == 0 {
+						l += fmt.Sprintf(" %d ns/op", ns)
+					} else {
+						l += fmt.Sprintf(" %se-09 sec/op", strconv.Itoa(ns))
+					}
+					mb := 50 + rng.Intn(20)
+					if rng.Intn(2) == 0 {
+						l += fmt.Sprintf(" %d MB/s", mb)
+					} else {
+						l += fmt.Sprintf(" %d000000 B/s", mb)
+					}
+					l += fmt.Sprintf(" %d B/op", 64*(1+rng.Intn(3)))
+					gc := 10 + rng.Intn(10)
+					if rng.Intn(2) == 0 {
+						l += fmt.Sprintf(" %d ns/GC", gc)
+					} else {
+						l += fmt.Sprintf(" %de-09 sec/GC", gc)
+					}
+					lines = append(lines, l)
+				}
+			}
+			if permute {
+				perm.Shuffle(len(lines), func(a, b int) { lines[a], lines[b] = lines[b], lines[a] })
+			}
+			sb.WriteString(strings.Join(lines, "\n"))
+			sb.WriteString("\n\n")
+		}
+		suffix := "a"
+		if permute {
+			suffix = "b"
+		}
+		p := filepath.Join(dir, fmt.Sprintf("mix%d-%d%s.txt", i, f, suffix))
+		os.WriteFile(p, []byte(sb.String()), 0o644)
+		files = append(files, p)
+	}
+	return files
 }
 
 // tpRepeatBig: the same comparisons on LARGE inputs (args: benchstat-binary n outfile); input i is
